@@ -57,12 +57,9 @@ func vfH_C10_refuse() {
 	}
 	replies := env.replies[nReplies:]
 	vfAssert(len(replies) == 1, "C10: a non-leader did not answer the request exactly once")
-	if op == 1 && !pre.exists {
-		// nothing is known about the key on this node: UNLOCK_ERROR is also a refusal that changes nothing
-		vfAssert(replies[0].result == protocol.RESULT_STATE_ERROR || replies[0].result == protocol.RESULT_UNLOCK_ERROR, "C10: a non-leader answered an unlock with something other than a refusal")
-	} else {
-		vfAssert(replies[0].result == protocol.RESULT_STATE_ERROR, "C10: a non-leader answered a client request on its own instead of refusing with STATE_ERROR")
-	}
+	// (a first version accepted UNLOCK_ERROR for a key this node knows nothing about; the statement says
+	// STATE_ERROR, and a lagging follower that has not applied the key's LOCK yet must not answer from its own state)
+	vfAssert(replies[0].result == protocol.RESULT_STATE_ERROR, "C10: a non-leader answered a client request on its own instead of refusing with STATE_ERROR")
 	post := vfTakeSnap(env.manager(key))
 	if pre.exists {
 		vfAssert(vfUnchanged(&pre, &post), "C10: a refused request changed the key's state on a non-leader")
